@@ -137,7 +137,12 @@ def cases(seed, tier):
     for i in range(n_c):
         rows, cols, n3 = int(rng.integers(8, 60)), int(rng.integers(8, 60)), int(rng.integers(1, 5))
         g = int(rng.integers(2, 9))
-        out.append({'kind': 'cube', 'shape': [rows, cols], 'n3': n3, 'naxis': int(rng.choice([3, 4])),
+        naxis = int(rng.choice([3, 4]))
+        if i < 2:
+            # stratified, not drawn: every run sees a 4-D cube with several planes (a non-zero cube_index on NAXIS=4
+            # was left to chance before seeded change C06-r10-1) and a 3-D one
+            naxis, n3 = (4, max(n3, 2)) if i == 0 else (3, max(n3, 2))
+        out.append({'kind': 'cube', 'shape': [rows, cols], 'n3': n3, 'naxis': naxis,
                     'seed': [seed, 'cube', i], 'grid': [g, g], 'box': [3 * g + 1, 3 * g + 1], 'cores': int(rng.choice([1, 2]))})
     n_b = 8 if tier == 'quick' else 40
     for i in range(n_b):
